@@ -14,5 +14,5 @@ OUT="$(VERIF_REPO="$TMP" VERIF_EVIDENCE_DIR="$TMP/evidence" timeout 1800 "$HERE/
 V="$(printf '%s\n' "$OUT" | grep -c '^VIOLATION')"
 if [ "$RC" = 1 ] && [ "$V" -gt 0 ]; then VERDICT=KILLED; elif [ "$RC" = 0 ]; then VERDICT=SURVIVED; else VERDICT="HARNESS-ERROR(rc=$RC)"; fi
 echo "MUTANT $(basename "$(dirname "$PATCH")")/$(basename "$PATCH") on $PROP $TIER: $VERDICT baseline=$BASE violations=$V"
-[ -n "$VERBOSE" ] && printf '%s\n' "$OUT" | tail -8
+[ -n "$VERBOSE" ] && printf '%s\n' "$OUT" | tail -40
 [ "$VERDICT" = KILLED ]
